@@ -144,3 +144,12 @@ Proof.
 Qed.
 
 End M.
+
+Section M2.
+Variable fok : str -> bool.
+Lemma pargs_mono_any n m st : pargs fok n st <> PFuel -> n <= m -> pargs fok m st = pargs fok n st.
+Proof.
+  intros H Hle. induction Hle; [reflexivity|].
+  rewrite (proj1 (proj2 (proj2 (mono_step fok m))) st); [exact IHHle | rewrite IHHle; exact H].
+Qed.
+End M2.
